@@ -460,6 +460,10 @@ def check(ctx, case, preempt=None):
                 # an experimental unknown request is answered by the next reply nobody else waits for (documented in the code:
                 # "this may be a response to the last unknown request"): unsolicited or late replies are taken for it by design
                 req = next((r for r in world.requests if r['nonce'] == nonce), None)
+                if a == 'pong':
+                    # ... but not the answer to the client's own heartbeat: somebody does wait for that one
+                    ctx.finding('heartbeat-pong-handed-to-caller', sub, f'caller {i} asked {c["key"]}, got {results[i][:4]!r}')
+                    return
                 if req is None or req['action'] != action:
                     ctx.label('unknown-request-took-other-reply')
                     took_stray = True
